@@ -3,64 +3,143 @@
     and non-vacuity examples.
 
     Backoff arithmetic: model Hsms/Backoff.v (Flocq binary64), proofs Hsms/BackoffProofs.v, tie =
-    hook differential on the real nextBackoffDelay (bit-exact) + e2e dial timestamps.
-    Lifecycle (a loop always exists, reconnect counter, no dial after Close): model
-    Hsms/Lifecycle.v, proofs Hsms/LifecycleProofs.v, tie = e2e histories through the extracted
-    monitors. "Eventually re-establishes" is liveness: observed by the harness, not proved. *)
+    hook differential on the real nextBackoffDelay (bit-exact) + source-shape guard + e2e dial
+    timestamps. Lifecycle (a loop always exists, reconnect counter, no dial after Close): model
+    Hsms/Lifecycle.v, invariant Hsms/LifecycleInv.v, proofs Hsms/LifecycleProofs.v, tie = e2e
+    histories judged by the extracted monitor. "Eventually re-establishes a Selected session" is
+    liveness (fair scheduling, reachable peer): observed by the harness in every run, not proved. *)
 From Coq Require Import ZArith Bool List Lia.
-From GoSecs Require Import Hsms.Backoff Hsms.BackoffProofs.
+From GoSecs Require Import Gen.Gen Gen.BridgeBackoff Hsms.Backoff Hsms.BackoffProofs Hsms.Lifecycle Hsms.LifecycleInv Hsms.LifecycleProofs.
 Import ListNotations.
+Close Scope Z_scope.
+
+(** * Backoff *)
+Section Backoff.
 Open Scope Z_scope.
 
 (** Backoff delays start at the configured initial value (capped by T5), never decrease and never
-    exceed T5 — for every initial delay and T5 up to 2^53 ns (about 104 days) and EVERY multiplier
-    the option validation accepts (not < 1.0: this includes +Inf and NaN). *)
-Theorem C11_backoff : forall init mult t5,
-  0 < init -> Backoff_mult_ok mult = true -> 0 < t5 ->
-  init <= Backoff_two53 -> t5 <= Backoff_two53 ->
+    exceed T5 — for EVERY positive int64 initial delay and T5 and EVERY multiplier (finite, +-Inf,
+    NaN), for the function as it reads since /repo commit 67dfa20. *)
+Theorem C11_backoff : forall init mult t5, 0 < init -> 0 < t5 ->
   Backoff_sleep init mult t5 0 = Z.min init t5 /\
   forall k, Backoff_sleep init mult t5 k <= Backoff_sleep init mult t5 (S k) <= t5.
 Proof. exact Backoff_sleeps_ok. Qed.
 Print Assumptions C11_backoff.
 
-(** The 2^53 bound is necessary for the code as written (DESIGN §5 #7): with initial = 2^53+1 ns,
-    multiplier 1.0 and T5 = 2^62 ns the second sleep is 1 ns SHORTER than the first. *)
-Theorem C11_backoff_refuted_beyond_2p53 :
+Theorem C11_backoff_step : forall cur mult ceil, 0 < cur -> 0 < ceil ->
+  Z.min cur ceil <= Backoff_next_delay cur mult ceil <= ceil.
+Proof. exact Backoff_next_delay_bounds. Qed.
+Print Assumptions C11_backoff_step.
+
+(** Regression material about the function BEFORE the fix (DESIGN §5 #7). It satisfied the same
+    statement only up to 2^53 ns (about 104 days) and only for validated multipliers ... *)
+Theorem C11_backoff_old_upto_2p53 : forall init mult t5,
+  0 < init -> Backoff_mult_ok mult = true -> 0 < t5 ->
+  init <= Backoff_two53 -> t5 <= Backoff_two53 ->
+  Backoff_sleep_old init mult t5 0 = Z.min init t5 /\
+  forall k, Backoff_sleep_old init mult t5 k <= Backoff_sleep_old init mult t5 (S k) <= t5.
+Proof. exact Backoff_sleeps_old_ok. Qed.
+Print Assumptions C11_backoff_old_upto_2p53.
+
+(** ... beyond that bound it was refuted: with initial = 2^53+1 ns, multiplier 1.0 and
+    T5 = 2^62 ns the second sleep was 1 ns SHORTER than the first ... *)
+Theorem C11_backoff_old_refuted_beyond_2p53 :
   exists init mult t5, 0 < init /\ Backoff_mult_ok mult = true /\ 0 < t5 /\
-    Backoff_sleep init mult t5 1 < Backoff_sleep init mult t5 0.
-Proof. exact Backoff_refuted_beyond_2p53. Qed.
-Print Assumptions C11_backoff_refuted_beyond_2p53.
+    Backoff_sleep_old init mult t5 1 < Backoff_sleep_old init mult t5 0.
+Proof. exact Backoff_old_refuted_beyond_2p53. Qed.
 
-Theorem C11_backoff_refuted_witness :
-  Backoff_next_delay_bits (Backoff_two53 + 1) Backoff_one_bits (2 ^ 62) = Backoff_two53.
-Proof. exact Backoff_refuted_witness. Qed.
+Theorem C11_backoff_old_refuted_witness :
+  Backoff_next_delay_old_bits (Backoff_two53 + 1) Backoff_one_bits (2 ^ 62) = Backoff_two53.
+Proof. exact Backoff_old_refuted_witness. Qed.
 
-(** With the repair of fixes/C11-backoff-monotone.diff the statement holds for every positive
-    int64 initial delay and T5 and for every multiplier whatsoever; on the range of [C11_backoff]
-    the repaired function equals the current one. *)
-Theorem C11_backoff_repaired : forall init mult t5, 0 < init -> 0 < t5 ->
-  Backoff_sleep_repaired init mult t5 0 = Z.min init t5 /\
-  forall k, Backoff_sleep_repaired init mult t5 k <= Backoff_sleep_repaired init mult t5 (S k) <= t5.
-Proof. exact Backoff_sleeps_repaired_ok. Qed.
-Print Assumptions C11_backoff_repaired.
-
-Theorem C11_backoff_repair_conservative : forall cur mult ceil,
+(** ... and on the range of [C11_backoff_old_upto_2p53] the fix changes no result. *)
+Theorem C11_backoff_fix_conservative : forall cur mult ceil,
   0 < cur <= Backoff_two53 -> Backoff_mult_ok mult = true -> 0 < ceil ->
-  Backoff_next_delay_repaired cur mult ceil = Backoff_next_delay cur mult ceil.
-Proof. exact Backoff_repaired_same_in_range. Qed.
+  Backoff_next_delay cur mult ceil = Backoff_next_delay_old cur mult ceil.
+Proof. exact Backoff_same_as_old_in_range. Qed.
 
-(** Non-vacuity: the default configuration (100 ms, x2.0, T5 = 10 s) satisfies the hypotheses and
-    produces the expected ramp. *)
+(** Non-vacuity: the default configuration (100 ms, x2.0, T5 = 10 s) produces the expected ramp;
+    the old failing input no longer decreases; NaN / +Inf multipliers go straight to T5. *)
 Definition C11_two_bits : Z := 4611686018427387904. (* 0x4000000000000000 = 2.0 *)
 Example C11_backoff_nonvacuous :
-  Backoff_mult_ok (Backoff_f64_of_bits C11_two_bits) = true /\
   Backoff_sleeps_from 100000000 (Backoff_f64_of_bits C11_two_bits) 10000000000 9 =
   [100000000; 200000000; 400000000; 800000000; 1600000000; 3200000000; 6400000000; 10000000000; 10000000000].
-Proof. vm_compute. split; reflexivity. Qed.
+Proof. vm_compute. reflexivity. Qed.
+Example C11_backoff_regression_2p53 :
+  Backoff_next_delay_bits (Backoff_two53 + 1) Backoff_one_bits (2 ^ 62) = Backoff_two53 + 1.
+Proof. exact Backoff_regression_2p53. Qed.
 Example C11_backoff_nan_inf_nonvacuous :
-  Backoff_mult_ok (Backoff_f64_of_bits 9221120237041090560) = true /\   (* NaN *)
+  Backoff_mult_ok (Backoff_f64_of_bits 9221120237041090560) = true /\   (* NaN passes the validation *)
   Backoff_mult_ok (Backoff_f64_of_bits 9218868437227405312) = true /\   (* +Inf *)
   Backoff_mult_ok (Backoff_f64_of_bits 4602678819172646912) = false /\  (* 0.5 *)
   Backoff_next_delay_bits 1000 9221120237041090560 5000 = 5000 /\
   Backoff_next_delay_bits 1000 9218868437227405312 5000 = 5000.
 Proof. vm_compute. repeat split; reflexivity. Qed.
+End Backoff.
+Close Scope Z_scope.
+
+(** * Lifecycle (safety half of "keeps dialing / resumes listening") *)
+
+(** In every reachable state in which the connection is open (supervisor alive, no Close / failed
+    Open in progress) and NotConnected, something is driving it towards a connection: an Open is
+    inside its Start or its cold-start path, the supervisor is inside the NotConnected reaction
+    (about to start the loop), a reconnect loop is alive before the end of its Start, a passive
+    generation is listening with its accept goroutine alive, or an accepted peer is about to be
+    committed. *)
+Theorem C11_loop_exists : forall s, Lifecycle_reachable s ->
+  lc_is_alive (lc_sup s) = true -> lc_shutdown s = false -> lc_is_nc (lc_st s) = true ->
+  lc_covered s = true.
+Proof.
+  intros s Hr. exact (Lifecycle_loop_exists s (proj1 (Lifecycle_reachable_inv s Hr))).
+Qed.
+Print Assumptions C11_loop_exists.
+
+(** The reconnect counter grows by exactly one per successful re-dial of a loop started with
+    countReconnect: at every moment, Reconnects() plus the loops that have completed their Start
+    but not yet executed the increment equals the number of such successful re-dials. *)
+Theorem C11_reconnect_count : forall s, Lifecycle_reachable s ->
+  lc_reconnects s + lc_tailc s = lc_redials s.
+Proof. exact Lifecycle_reconnect_count. Qed.
+Print Assumptions C11_reconnect_count.
+
+(** No reconnect is attempted after Close: from a state in which Close has returned, as long as
+    no Open call is made, nothing changes and the log shows no dial, listen or publish. *)
+Theorem C11_no_dial_after_close : forall s acts s', Lifecycle_reachable s -> lc_closed s ->
+  forallb (fun a => negb (lc_is_open_call a)) acts = true ->
+  Lifecycle_run s acts = Some s' ->
+  s' = s /\ existsb lc_obs_is_dial (Lifecycle_observe s acts) = false.
+Proof.
+  intros s acts s' Hr. exact (Lifecycle_no_dial_after_close acts s s' (proj1 (Lifecycle_reachable_inv s Hr))).
+Qed.
+Print Assumptions C11_no_dial_after_close.
+
+(** The extracted monitor accepts every run of the model. *)
+Theorem C11_all_runs : forall active acts s,
+  Lifecycle_run (Lifecycle_init active) acts = Some s ->
+  ok_C11 (Lifecycle_observe (Lifecycle_init active) acts) = true.
+Proof. intros active acts s H. exact (proj2 (Lifecycle_monitor_all_runs active acts s H)). Qed.
+Print Assumptions C11_all_runs.
+
+(** Non-vacuity: an active connection opens, is selected, loses the link; the reaction starts a
+    loop, which waits for the old generation, sleeps, passes both fences, publishes, re-dials and
+    counts one reconnect. *)
+Definition C11_trace : list Lifecycle_action :=
+  [LcOpen LcBackground; LcOpen1; LcOpen2; LcOpen3; LcODial true; LcOGate; LcSupUpEcho; LcSelected true;
+   LcRecvExit true; LcSupDisc; LcSupReact1; LcSupReact2; LcSupReact3; LcJoinStop1; LcJoinStop2; LcProcExit false;
+   LcLtExit false; LcSenderExit; LcJoinFinish; LcLWait; LcLSleepDone; LcLFenceStep; LcLPublish; LcLSender;
+   LcLDial false; LcJoinStop1; LcJoinStop2; LcSenderExit; LcJoinFinish; LcLFailWaited; LcLSleepDone; LcLFenceStep;
+   LcLPublish; LcLSender; LcLDial true; LcLGate; LcTailInc; LcTailExit].
+Example C11_lifecycle_nonvacuous :
+  exists s, Lifecycle_run (Lifecycle_init true) C11_trace = Some s /\
+            lc_reconnects s = 1 /\ lc_redials s = 1 /\ lc_ndials s = 3 /\ lc_is_ns (lc_st s) = true /\ lc_err s = false.
+Proof. eexists. split; [vm_compute; reflexivity|]. repeat split. Qed.
+Example C11_loop_exists_nonvacuous :
+  exists s, Lifecycle_run (Lifecycle_init true) (firstn 13 C11_trace) = Some s /\
+            lc_is_alive (lc_sup s) = true /\ lc_shutdown s = false /\ lc_is_nc (lc_st s) = true /\ lc_hasloop s = true.
+Proof. eexists. split; [vm_compute; reflexivity|]. repeat split. Qed.
+
+(** The constants the model and the harness logs name ARE the current source (regenerated on every check). *)
+Theorem C11_bridge_constants :
+  Gen.hsms.NotConnectedState = 0%Z /\ Gen.hsms.NotSelectedState = 1%Z /\ Gen.hsms.SelectedState = 2%Z /\
+  Gen.hsms.OpenWaitSelected = 0%Z /\ Gen.hsms.OpenBackground = 1%Z /\ Gen.hsms.stateClosedBit = 256%Z.
+Proof. exact bridge_lifecycle_constants. Qed.
